@@ -45,13 +45,13 @@ var bodyPkgs = map[string]bool{
 	"github.com/shopspring/decimal": true,
 	"github.com/antlr4-go/antlr/v4": true,
 	"net/url": true, "path": true, "encoding/base64": true, "slices": true, "unicode/utf16": true,
-	"sort": true, "math/bits": true, "sync/atomic": true, "cmp": true,
+	"sort": true, "math/bits": true, "sync/atomic": true, "cmp": true, "maps": true,
 }
 
 var execStdPkgs = map[string]bool{
 	"time": true, "net/url": true, "path": true, "encoding/base64": true,
 	"strings": true, "strconv": true, "unicode": true, "slices": true, "sort": true, "cmp": true, "unicode/utf16": true,
-	"unicode/utf8": true, "math/bits": true, "sync/atomic": true,
+	"unicode/utf8": true, "math/bits": true, "sync/atomic": true, "maps": true,
 }
 
 func (p *Program) isExecuted(pkgPath string) bool {
